@@ -15,7 +15,7 @@ from lib import mcgen, tlc, tracecheck
 
 META = {
     "level": "model_checking",
-    "text": "TLC enumerates every string of length <= 6 (quick) / 7 over {a, b, delimiter}, every sequence of <= 3 (quick) / 4 "
+    "text": "TLC enumerates every string of length <= 6 (quick) / 7 over {a, b, delimiter}, every sequence of <= 2-3 (quick) / 3-4 "
             "editing operations (append, prepend, append_unique, insert, insert_element, delete) and every argument vector of "
             "<= 4 (quick) / 5 tokens with three option tables; each is run through the real parsec_argv_* / "
             "parsec_cmd_line_* functions and TLC validates the results: split/join round trip (with and without empty fields), "
@@ -69,15 +69,18 @@ def run(ctx):
     fails = [("split/join", "ArgvTrace", f) for f in ctx.validate("Util", "ArgvTrace", "ArgvTrace.cfg", exs, batch=4000, timeout=1500)]
 
     # ---- editing operations -----------------------------------------------------------------------------------------
-    words = [[], [1], [1, 2]]
-    sources = [[[2]], [[1], []]]
-    c = {"Words": mcgen.Raw("{<<>>, <<1>>, <<1, 2>>}"), "Sources": mcgen.Raw("{<< <<2>> >>, << <<1>>, <<>> >>}"),
-         "MaxLen": 3 if q else 4, "MaxArgc": 3}
-    mod, cfg = mcgen.write_mc(d, "edit", "ArgvEdit", c, invariants=("TypeOK", "Emit"))
-    r = ctx.tlc_check(d, mod, cfg, must_cover=("DoAppend", "DoPrepend", "DoAppendUnique", "DoInsert", "DoInsertElement", "DoDelete"),
-                      workers=4, timeout=1500)
-    hs = [h for h in (tlc._parse_tla_string_list(l) for l in r.printed) if h]
-    lines = sorted(set(";".join("%s %d %d %s %s" % (o["op"], o["a"], o["b"], enc_str(o["w"]), enc_vec(o["src"])) for o in h) for h in hs))
+    cfgs = [("edit", {"Words": mcgen.Raw("{<<>>, <<1>>, <<1, 2>>}"), "Sources": mcgen.Raw("{<< <<2>> >>, << <<1>>, <<>> >>}"),
+                      "Dels": {0, 1, 2, 3}, "MaxLen": 2 if q else 3, "MaxArgc": 3}),
+            ("edit3", {"Words": mcgen.Raw("{<<1>>}"), "Sources": mcgen.Raw("{<< <<2>>, <<>> >>}"),
+                       "Dels": {1, 2}, "MaxLen": 3 if q else 4, "MaxArgc": 2})]
+    lines = set()
+    for name, c in cfgs:
+        mod, cfg = mcgen.write_mc(d, name, "ArgvEdit", c, invariants=("TypeOK", "Emit"))
+        r = ctx.tlc_check(d, mod, cfg, must_cover=("DoAppend", "DoPrepend", "DoAppendUnique", "DoInsert", "DoInsertElement", "DoDelete"),
+                          workers=4, timeout=1500)
+        hs = [h for h in (tlc._parse_tla_string_list(l) for l in r.printed) if h]
+        lines |= set(";".join("%s %d %d %s %s" % (o["op"], o["a"], o["b"], enc_str(o["w"]), enc_vec(o["src"])) for o in h) for h in hs)
+    lines = sorted(lines)
     rc, evs = run_harness(ctx, exe, "edit", lines, "edit")
     exs = tracecheck.split_executions(evs)
     if rc != 0:
